@@ -72,6 +72,10 @@ CONSTANTS
                     \*       LAST attempt is still in flight is moved; FALSE: proposed fix
   ReplayDefaultLimit, \* TRUE: as coded - replay_dlq omits max_attempts, the row gets SchemaMax;
                     \*       FALSE: proposed fix - the row gets the queue's QMax
+  Poison,           \* subset of Msgs this build cannot deserialize (a message type it does not know): poll_one claims
+                    \*       such a row (UPDATE ; COMMIT), then deserialize_message raises - nobody holds it, the row stays
+                    \*       locked until the lock lapses, is claimed again .. and is swept to the DLQ at its attempt
+                    \*       limit; replay_dlq puts it back unchanged (it never looks into the payload)
   DanglingTxn       \* TRUE: as coded - move_to_dlq / replay_dlq return without COMMIT or ROLLBACK when the
                     \*       row is gone, leaving the implicitly begun write transaction open on that
                     \*       connection; FALSE: proposed fix - they roll back
@@ -330,16 +334,24 @@ ReplayInsert(c) ==
      /\ L("ReplayInsert", c, cl[c].tmp[1], <<i>>)
   /\ UNCHANGED <<db, cnt>>
 
+PoisonClaim(c) == /\ cl[c].op = "poll" /\ cl[c].tmp = <<TRUE>>
+                  /\ txn.img.rows[cl[c].cand.id].msg \in Poison
+
 (* COMMIT: the private image becomes the database; the operation returns (or, for the sweep,
    continues with the next row). *)
 Commit(c) ==
   /\ cl[c].pc = "commit" /\ txn.owner = c
-  /\ db' = txn.img
+  /\ db' = IF PoisonClaim(c) THEN [txn.img EXCEPT !.leases = {g \in @ : ~(g[1] = c /\ g[2] = cl[c].cand.id)}]
+            ELSE txn.img
   /\ txn' = [owner |-> Nobody, img |-> EmptyDb]
   /\ LET o == cl[c].op IN
      CASE o = "poll" ->
             LET i == cl[c].cand.id IN
-            IF cl[c].tmp[1]
+            IF PoisonClaim(c)
+              THEN \* claimed, but the message does not deserialize: poll_one raises after its commit, no handle
+                   /\ Set(c, Done(c))
+                   /\ L("Commit", c, i, <<"poll", "poison">>)
+            ELSE IF cl[c].tmp[1]
               THEN /\ Set(c, [Idle0 EXCEPT !.held = [id |-> i, att |-> cl[c].cand.att + 1]])
                    /\ L("Commit", c, i, <<"poll", i, cl[c].cand.att + 1, txn.img.rows[i].msg>>)
               ELSE /\ Set(c, Done(c)) /\ L("Commit", c, i, <<"poll", "lost">>)
